@@ -8,8 +8,8 @@ from common import Rng, frac_of, enc_round
 
 PID = "C13"
 BINS = ["x_core", "x_rate"]
-TYPES = ["AmountT", "Mass", "Length", "Duration", "DataVolume", "Temperature", "SynA", "SynOne"]
-RULE = ("all 64 ordered pairs (term quantity, per quantity) over {AmountT, Mass, Length, Duration, DataVolume, SynA (synthetic), "
+TYPES = ["AmountT", "Mass", "Length", "Duration", "DataVolume", "Temperature", "SynA", "SynOne", "SynX"]
+RULE = ("all 81 ordered pairs (term quantity, per quantity) over {AmountT, Mass, Length, Duration, DataVolume, SynA (synthetic), SynX (synthetic, SI prefixes that do not mirror the scales), "
         "SynOne (single unit), Temperature (equal units only)} x term/per/operand units (quick: each unit appears; thorough: all triples) x "
         "amounts with per-multiples that are not powers of ten, both constructors; accessors bit-exact, reciprocal swap and involution, "
         "rate*q, q*rate, t/rate, reciprocal*t, (rate*q)/rate against exact rationals; operator existence probed by trait resolution and "
